@@ -572,6 +572,11 @@ def _refined_base(draw, fl: Flags):
             # bounds written as int literals (as in geml.grammars.sgp: FloatRange(0, 9))
             a = draw(st.integers(-2, 3))
             return ["ann", ["float"], ["FloatRange", a, a + draw(st.integers(0, 4))]]
+        if draw(st.integers(0, 3)) == 0:
+            # a constant written as a degenerate range, with a value that is not a short binary fraction
+            # (an interpolation formula that is not exact for min == max leaves the range by one ulp)
+            a = draw(st.sampled_from([123.456, 1 / 3, 0.1 + 0.2, 2 / 3, 1e10 / 3, -123.456, 3e-7, 0.7]))
+            return ["ann", ["float"], ["FloatRange", a, a]]
         a = draw(st.sampled_from([-1.5, 0.0, 0.25, 2.0]))
         w = draw(st.sampled_from([0.0, 0.5, 1.0, 3.0]))
         return ["ann", ["float"], ["FloatRange", a, a + w]]
